@@ -371,6 +371,12 @@ fn src_grammar(src: &str) -> (String, String, Option<String>) {
             let mut rng = Rng::new(seed ^ 0x1A18 ^ (k as u64).wrapping_mul(0x9E37));
             ("cfg".into(), serde_json::to_string(&lalr_split_grammar(&mut rng, &format!("c15lalr{k}"))).unwrap(), None)
         }
+        "lalrglr" => {
+            let seed: u64 = f[1].parse().unwrap();
+            let k: usize = f[2].parse().unwrap();
+            let mut rng = Rng::new(seed ^ 0x61A5 ^ (k as u64).wrapping_mul(0x9E37));
+            ("glr".into(), serde_json::to_string(&lalr_glr_grammar(&mut rng, &format!("c15lglr{k}"))).unwrap(), None)
+        }
         "json" => ("cfg".into(), String::from_utf8(unhex(f[1])).unwrap(), None),
         _ => panic!("bad src {src}"),
     }
@@ -615,6 +621,26 @@ fn main() {
             Err(e) => eprintln!("{name}: {}", e.lines().next().unwrap_or("")),
         }
         k += 1;
+    }
+    // LR(1)-but-not-LALR(1) splits BEHIND a declared conflict: the states that hold the GLR entry
+    // [REDUCE, SHIFT] must stay split because their shift targets must (last: the families above see the
+    // same random stream as before)
+    for k in 0..(if thorough { 60 } else { 10 }) {
+        let mut grng = Rng::new(seed ^ 0x61A5 ^ (k as u64).wrapping_mul(0x9E37));
+        let name = format!("c15lglr{k}");
+        let json = serde_json::to_string(&lalr_glr_grammar(&mut grng, &name)).unwrap();
+        match build_pair(&mut cu, &work, &name, &json, None, nproc) {
+            Ok(p) => {
+                if !p.det_ok {
+                    nondet += 1;
+                }
+                em.header(&name, "glr", &format!("lalrglr:{seed}:{k}"), &p);
+                let lv = lang_view(&p);
+                explore_tokens(&mut em, &p, &name, &mut rng, budget.max(3000), nrandom, &lv);
+                npairs += 1;
+            }
+            Err(_) => rejected += 1,
+        }
     }
     let (cases, both_ok, differ) = (em.cases, em.both_ok, em.differ);
     drop(em);
